@@ -191,7 +191,7 @@ def skel_table(skel, name, concrete):
                     r = ret.match(f['output'])
                     if f['name'] == 'new' and f['output'] == 'Self':
                         out.append('new|' + st)
-                        mm = re.match(r'^Self\{ctx,_state:::core::marker::PhantomData,(.*)\}$', ''.join(f['stmts']))
+                        mm = re.match(r'^(?:Self|%s)\{ctx,_state:::core::marker::PhantomData,(.*)\}$' % re.escape(name), ''.join(f['stmts']))
                         ic = inits_code(mm.group(1)) if mm else None
                         out.append('nb|%s|%s' % (st, ic if ic is not None else 'UNKNOWN<%s>' % ''.join(f['stmts'])[:120]))
                     elif r:
@@ -251,7 +251,10 @@ def skel_table(skel, name, concrete):
                             if restore != src or bool(bp) != bool(pp):
                                 out.append('BAD-ARM|%s|%s' % (src, var))
                             out.append('arm|%s|%s|%s|%s' % (src, var, meth, ok))
-                        if 'let current=self.inner.take().expect(' not in body or not body.rstrip().endswith('self.inner=::core::option::Option::Some(new_state);Ok(())'):
+                        via_local = ';let new_state=match(current,event){' in body and \
+                            body.rstrip().endswith('};self.inner=::core::option::Option::Some(new_state);Ok(())')
+                        direct = ';self.inner=::core::option::Option::Some(match(current,event){' in body and body.rstrip().endswith('});Ok(())')
+                        if 'let current=self.inner.take().expect(' not in body or not (via_local or direct):
                             out.append('BAD-HANDLE-FRAME')
     return out
 
